@@ -123,6 +123,7 @@ func main() {
 	maxViol := flag.Int("maxviol", 3, "stop after this many violating runs")
 	printPlan := flag.Bool("plan", false, "print the generated plan of -from and exit")
 	knownPath := flag.String("known", "", "known findings file")
+	onlyProp := flag.String("prop", "", "report only violations of this property (others are counted)")
 	flag.Parse()
 	watchdog()
 
@@ -204,6 +205,17 @@ func main() {
 		fmt.Fprintf(allh, "%d %s %d %d\n", seed, out.Digest, out.Steps, len(out.Violations))
 		if out.Panic != "" {
 			out.Violations = append(out.Violations, sim.Violation{Prop: pr.Prop, Oracle: "panic", Msg: out.Panic})
+		}
+		if *onlyProp != "" && len(out.Violations) > 0 {
+			var mine []sim.Violation
+			for _, v := range out.Violations {
+				if v.Prop == *onlyProp {
+					mine = append(mine, v)
+				} else {
+					sum.Extra["violations_of_other_property_"+v.Prop]++
+				}
+			}
+			out.Violations = mine
 		}
 		if len(knowns) > 0 && len(out.Violations) > 0 {
 			var rest []sim.Violation
